@@ -16,10 +16,10 @@ RULE = ("time-ordered multivariate series: white noise and red-noise mixtures (i
         "mixed by a random matrix, optionally plus white noise), n 12..48 samples, 2..7 features, tau_max 1..n/3, n_pca_modes 2..rank, "
         "n_modes 1..n_pca_modes, center/standardize/use_coslat flags, 1-D and lat-lon layouts, solver='full'; non-trivial: q >= 2, "
         "tau_max >= 1 and the implementation returned; distinct by input hash")
-PARTIAL = ["C19_decorrelation_is_trapezoid / C19_descending / C19_optimal_series carry the forced hypothesis `mT Ci = Ci` (the inverse of "
-           "C0_sqrt is symmetric): the source contracts the same index of C0_sqrt_inv on both sides of M + M^T, which is the whitening "
-           "congruence only then; it holds because the PCs are uncorrelated (C0 diagonal) — checked per case in Coq (field 7)",
-           "the eigen-decomposition of the target, the factorisation of C0 and the inverse of C0_sqrt are oracles with checked residuals; "
+PARTIAL = ["the hypotheses `mT Ci = Ci` and `whiten_ok` of C19_decorrelation_is_trapezoid / C19_descending / C19_optimal_series are discharged for the "
+           "source's own whitening matrix by C19_source_whitening_is_symmetric / C19_source_whitening_whitens (after the repair 599b03e; before it "
+           "the source's Ci was symmetric only for U0 = +-I, and principal components of equal variance gave wrong signs and order)",
+           "the eigen-decomposition of the target and the factorisation of C0 are oracles with checked residuals; "
            "existence and completeness of the eigen-oracle answer (spectral theorem) are not proved",
            "characteristic 2 excluded (1 + 1 <> 0) for the factor 1/2"]
 REFUTED = ["C19_decorrelation_refuted is a theorem about the DEFECT variant of the model (use_svd_as_eig = true: singular values of the symmetric "
@@ -73,6 +73,14 @@ def own_time(p, tm):
 
 # ------------------------------------------------------------------ generators
 def gen_data(rng, kind, n, p):
+    if kind == "wave":
+        # propagating waves: pairs of principal components with (numerically) equal variance
+        t = np.arange(n)
+        per = [float(rng.choice([6, 8, 12])), float(rng.choice([3, 4]))]
+        Sg = np.stack([3 * np.cos(2 * np.pi * t / per[0]), 3 * np.sin(2 * np.pi * t / per[0]),
+                       np.cos(2 * np.pi * t / per[1]), np.sin(2 * np.pi * t / per[1])], axis=1)
+        Qm, _ = np.linalg.qr(rng.standard_normal((max(p, 4), max(p, 4))))
+        return (Sg @ Qm[:4])[:, :p] if p >= 4 else Sg[:, :p]
     if kind == "white":
         X = rng.standard_normal((n, p)) * rng.uniform(0.5, 2.0, p)
     else:
@@ -98,7 +106,7 @@ def gen_data(rng, kind, n, p):
 
 
 def make_cfg(rng, i):
-    kind = ["white", "red", "mixed"][i % 3]
+    kind = ["white", "red", "mixed", "wave"][i % 4]
     n = int(rng.integers(12, 49))
     p = int(rng.integers(2, 8))
     layout = "x"
@@ -106,11 +114,15 @@ def make_cfg(rng, i):
     if p % 2 == 0 and p >= 4 and rng.random() < 0.4:
         layout = "latlon"
         use_coslat = bool(rng.random() < 0.6)
-    rank = min(n - 1, p)
+    if kind == "wave":
+        n = int(rng.choice([24, 36, 48]))       # whole periods: the two members of a pair have equal variance
+        p = max(p, 4)
+        layout, use_coslat = "x", False
+    rank = min(n - 1, p) if kind != "wave" else 4
     q = int(rng.integers(2, rank + 1))
     k = int(rng.integers(1, q + 1))
     tm = int(rng.integers(1, n // 3 + 1))
-    cfg = dict(kind=kind, n=n, p=p, q=q, k=k, tau_max=tm, center=bool(rng.random() < 0.8), standardize=bool(rng.random() < 0.3),
+    cfg = dict(kind=kind, n=n, p=p, q=q, k=k, tau_max=tm, center=bool(rng.random() < 0.8), standardize=bool(rng.random() < 0.3) and kind != "wave",
                use_coslat=use_coslat, layout=layout)
     return cfg, gen_data(rng, kind, n, p)
 
@@ -273,7 +285,7 @@ def coq_record(cfg, rec, info, svd):
     w, Q = np.linalg.eigh(C0)
     w, Q = w[::-1], Q[:, ::-1]
     Q = Q * np.where(np.diag(Q) < 0, -1.0, 1.0)
-    Ci = np.linalg.inv(Q * np.sqrt(w))
+    Ci = (Q / np.sqrt(w)) @ Q.T          # the symmetric inverse square root, as the source builds it
     Msym = info["Msym"]
     T = 0.5 * Ci @ Msym @ Ci
     lam, U = np.linalg.eigh(0.5 * (T + T.T))
